@@ -22,6 +22,10 @@ type PropConfig struct {
 	IgnorePanics bool     `json:"ignore_panics"`
 	NoNilChecks  bool     `json:"no_nil_checks"`
 	NoWrapChecks bool     `json:"no_wrap_checks"`
+	NoBounds     bool     `json:"no_bounds"`
+	AutoRequires []string `json:"auto_requires"`
+	AutoEnsures  []string `json:"auto_ensures"`
+	Primitives   []string `json:"primitives"`
 	Inline       []string `json:"inline"`
 	Noop         []string `json:"noop"`
 	Tracked      []string `json:"tracked"`
@@ -79,7 +83,7 @@ func loadConfig(path string) (*PropConfig, error) {
 }
 
 func mkProfile(cfg *PropConfig) *Profile {
-	p := &Profile{Name: cfg.Profile, DefaultHavoc: cfg.DefaultHavoc, IgnorePanics: cfg.IgnorePanics, NoNilChecks: cfg.NoNilChecks, NoWrapChecks: cfg.NoWrapChecks,
+	p := &Profile{Name: cfg.Profile, DefaultHavoc: cfg.DefaultHavoc, IgnorePanics: cfg.IgnorePanics, NoNilChecks: cfg.NoNilChecks, NoWrapChecks: cfg.NoWrapChecks, NoBounds: cfg.NoBounds,
 		Inline: map[string]bool{}, Noop: map[string]bool{}, Tracked: cfg.Tracked}
 	if cfg.Mode == "bv" {
 		p.Mode = ModeBV
@@ -245,6 +249,33 @@ func RunProperty(cfg *PropConfig, root string, opts RunOpts) (*PropRun, error) {
 		if !found {
 			run.Funcs = append(run.Funcs, &FnResult{Key: expandKey(req), Err: "contract unbound: required function has no contract in profile " + prof.Name})
 		}
+	}
+	// profile-wide clauses (e.g. the ghost invariant and ghost neutrality) are added to every
+	// non-trusted contract of the profile before anything is verified
+	for _, cs := range eng.contracts {
+		for _, con := range cs {
+			if !con.HasProfile(prof.Name) || con.Trusted || con.NoAuto || con.autoApplied {
+				continue
+			}
+			con.autoApplied = true
+			for i, r := range cfg.AutoRequires {
+				n, err := ParseExpr(r)
+				if err != nil {
+					return nil, err
+				}
+				con.Requires = append(con.Requires, Clause{Label: fmt.Sprintf("auto%d", i), E: n, Src: r})
+			}
+			for i, r := range cfg.AutoEnsures {
+				n, err := ParseExpr(r)
+				if err != nil {
+					return nil, err
+				}
+				con.Ensures = append(con.Ensures, Clause{Label: fmt.Sprintf("auto%d", i), E: n, Src: r})
+			}
+		}
+	}
+	if len(cfg.Primitives) > 0 && opts.Only == "" {
+		run.Funcs = append(run.Funcs, coverageClosure(eng, prof, cfg, keys)...)
 	}
 	for _, k := range keys {
 		if opts.Only != "" && !strings.Contains(k, opts.Only) {
